@@ -1098,6 +1098,9 @@ func (c *Client) CloseWithSMTPClient(client *smtp.Client) error {
 		return nil
 	}
 	if err := client.Quit(); err != nil {
+		// QUIT only closes the connection after a positive reply. Do not leave the
+		// connection open if the server did not answer it as expected.
+		_ = client.Close()
 		return fmt.Errorf("failed to close SMTP client: %w", err)
 	}
 
